@@ -220,12 +220,17 @@ func init() {
 			{Name: "c08.process",
 				Impl: func(a []string) string {
 					ctx := spnego.NewAuthContext(spnego.AuthTypeNTLM, string(unhx(a[3])), string(unhx(a[1])), string(unhx(a[2])), string(unhx(a[4])), true)
+					// history: in half of the cases (fixed by the arguments) the context has already answered another
+					// CHALLENGE; what it parses and answers now is a function of this token alone
+					if c13Used(a) {
+						ctx.ProcessChallengeToken(c08EarlierChallengeToken())
+					}
 					return outBytes(ctx.ProcessChallengeToken(unhx(a[0])))
 				},
 				ReadBack: func(a []string, out string) (m, s []string) {
 					tok, ok := okPayload(out)
 					if !ok {
-						return []string{"-", "-"}, nil
+						return []string{"-", "-"}, []string{"-", "-", "none", "none"}
 					}
 					fl, _ := strconv.ParseUint(a[7], 10, 32)
 					tiLen, _ := strconv.Atoi(a[8])
@@ -237,7 +242,8 @@ func init() {
 					ntLen := ntRespLen(uint32(fl), tiLen)
 					authLen := 88 + 24 + ntLen + names
 					auth := cut(tok, len(tok)-authLen, len(tok))
-					return []string{hx(cut(auth, 88, 112)), hx(cut(auth, 112, 112+ntLen))}, nil
+					lm, nt := hx(cut(auth, 88, 112)), hx(cut(auth, 112, 112+ntLen))
+					return []string{lm, nt}, []string{lm, nt, hx(auth), hx(tok)}
 				}},
 		},
 		Gen: genC08,
@@ -260,6 +266,15 @@ func c08Name(r *Rng) string {
 		return string(s)
 	}
 	return c08Names[r.Intn(len(c08Names))]
+}
+
+// a well-formed SPNEGO response carrying an OEM CHALLENGE without extended session security, with its own server
+// challenge, target name and target information: the token a context may have seen before the one under test
+func c08EarlierChallengeToken() []byte {
+	ti, _ := mkAv([]avPair{{2, stdUTF16LE("OLDDOM")}, {1, stdUTF16LE("OLDSRV")}})
+	ch := mkChallenge(0x00000206, []byte{0xA1, 0xA2, 0xA3, 0xA4, 0xA5, 0xA6, 0xA7, 0xA8}, make([]byte, 8), []byte("OLDTARGET"), ti, make([]byte, 8), nil, nil, nil)
+	tok, _ := spnego.CreateNegTokenResp(asn1.Enumerated(1), spnego.NtlmOID, ch)
+	return tok
 }
 
 func mkChallenge(flags uint32, sc, res, tn, ti, ver, g0, g1, g2 []byte) []byte {
@@ -673,7 +688,7 @@ func genC08(r *Rng, tier string) []Case {
 		user, pw, d, w := c08Name(rp), c08Name(rp), c08Name(rp), c08Name(rp)
 		tu, t16 := textTables(user, d, w)
 		a := []string{hx(tok), hx([]byte(user)), hx([]byte(pw)), hx([]byte(d)), hx([]byte(w)), tu, t16, strconv.FormatUint(uint64(fl), 10), strconv.Itoa(len(ti))}
-		cs = append(cs, Case{Op: "c08.process", MArgs: a, Tag: tag})
+		cs = append(cs, Case{Op: "c08.process", MArgs: a, SArgs: a, Tag: tag})
 	}
 	return cs
 }
